@@ -335,7 +335,10 @@ fn eval(c: &Case, want_shapes: bool) -> Option<Outcome> {
     let parsed: Vec<(String, NetworkFilter)> = c
         .rules
         .iter()
-        .filter_map(|l| NetworkFilter::parse(l.trim(), true, Default::default()).ok().map(|f| (l.trim().to_string(), f)))
+        .filter_map(|l| match adblock::lists::parse_filter(l, true, Default::default()) {
+            Ok(adblock::lists::ParsedFilter::Network(f)) => Some((l.trim().to_string(), f)),
+            _ => None,
+        })
         .collect();
     let bad_ids: HashSet<u64> = parsed.iter().filter(|(_, f)| f.is_badfilter()).map(|(_, f)| f.get_id_without_badfilter()).collect();
     let live: Vec<&(String, NetworkFilter)> = parsed.iter().filter(|(_, f)| !f.is_badfilter() && !bad_ids.contains(&f.get_id())).collect();
@@ -652,7 +655,7 @@ fn main() {
         }
         cs.stat(if got.is_some() { "i32_ok" } else { "i32_err" });
         cs.case(
-            format!("oz_eqb (parse_i32 {}) {}", hxs(&s), copt(&got, |v| format!("({})%Z", v))),
+            format!("oz_eqb (parse_i32 {}) {}", hxs(&s), copt(&got, |v| format!("(zlit {} {})", cbool(*v < 0), cn((*v as i64).abs())))),
             json!({"i32_text": s, "parsed": got}),
             got.is_some(),
         );
